@@ -1,5 +1,6 @@
 """Pool discipline rules P1..P16 (DESIGN.md 4.4).  Each function records obligations on ctx."""
-from core import (norm, L_call, L_variant, root_has, arms, assigns_to_return, const_of, CallSite)
+from core import (norm, L_call, L_variant, root_has, arms, assigns_to_return, const_of, CallSite,
+                  returned_comparison, closure_arg_of)
 from mir import place_str, op_place, op_str
 
 VEC = ("alloc::vec::Vec", "std::vec::Vec")
@@ -415,3 +416,180 @@ def C02_2(ctx, facts):
                   "Pooled::take is used only by PoolInner::push to recover an undelivered connection",
                   "Pooled::take called from %s" % c.fn.nkey, c.where())
     ctx.floor("Pooled::take|callers", len(callers), 1, "callers of Pooled::take")
+
+
+# ------------------------------------------------------------------ P5
+
+OPT = ("core::option::Option", "std::option::Option")
+
+
+def _opt(m):
+    return tuple("%s::%s" % (o, m) for o in OPT)
+
+
+def expiry_cond(facts, fn, cond):
+    """Recognise `entry.at < threshold` in the shapes the normaliser knows.  Returns
+    (older_means_expired: bool, threshold_operand_in_fn) or None when the condition is not an expiry test."""
+    if cond.kind != "call":
+        return None
+    site = cond.site
+    clo = None
+    opt_operand = None
+    if site.is_(*_opt("unwrap_or")):
+        if const_of(site.args[1]) != "false":
+            return None
+        m = fn.call_defining(op_place(site.args[0])["l"]) if op_place(site.args[0]) else None
+        if m is None or not m.is_(*_opt("map")):
+            return None
+        clo = closure_arg_of(fn, m, 1)
+        opt_operand = m.args[0]
+    elif site.is_(*_opt("is_some_and")):
+        clo = closure_arg_of(fn, site, 1)
+        opt_operand = site.args[0]
+    elif site.is_(*_opt("map_or")):
+        if const_of(site.args[1]) != "false":
+            return None
+        clo = closure_arg_of(fn, site, 2)
+        opt_operand = site.args[0]
+    else:
+        return None
+    if clo is None or clo not in facts.fns:
+        return None
+    cf = facts.fns[clo]
+    cmpx = returned_comparison(cf)
+    if cmpx is None:
+        return None
+    op, a, b = cmpx
+    ra = cf.roots(a)
+    rb = cf.roots(b)
+
+    def is_at(rs):
+        return any(r.kind == "arg" and ("at" in r.desc.replace("cap:", "").split("__") or r.desc.endswith(".at") or "entry__at" in r.desc) for r in rs)
+
+    def is_thr(rs):
+        return any(r.kind == "arg" and getattr(r, "index", 0) == 2 for r in rs)
+
+    if is_at(ra) and is_thr(rb):
+        older = op in ("Lt", "Le")
+    elif is_at(rb) and is_thr(ra):
+        older = op in ("Gt", "Ge")
+    else:
+        return None
+    return (older, opt_operand)
+
+
+def P5(ctx, facts):
+    """IdleConnections::pop yields an entry only if it is open and not expired; expiry = at < now - timeout."""
+    pop = facts.fn("client::pool::idle::IdleConnections::pop")
+    ctx.touched(pop)
+    vpops = pop.calls("alloc::vec::Vec::pop", "std::vec::Vec::pop")
+    if not vpops:
+        return ctx.missing("anchor", "no Vec::pop in IdleConnections::pop")
+    # yield sites: Some(x) with x rooted in the popped entry
+    ys = []
+    for (b, i, s) in pop.aggregates("Option", "Some"):
+        rts = pop.roots(s["r"]["ops"][0])
+        if any(r.kind == "call" and r.site.is_("alloc::vec::Vec::pop", "std::vec::Vec::pop") for r in rts):
+            ys.append((b, s))
+    ctx.floor("IdleConnections::pop|yield-sites", len(ys), 1, "sites yielding a popped idle entry")
+    thr_ops = []
+    for (b, s) in ys:
+        ok, w = pop.guarded(b, L_call(pop, "client::pool::PoolableConnection::is_open", True,
+                                      recv_root=lambda rs: any(r.kind == "call" and r.site.is_("alloc::vec::Vec::pop", "std::vec::Vec::pop") for r in rs)))
+        ctx.check(ok, "IdleConnections::pop|yield-open", "an idle entry is yielded only on the edge entry.inner.is_open() == true",
+                  "an idle entry can be yielded without is_open() == true", pop.where(b), pop.path_desc(w))
+        found = []
+
+        def not_expired(lab):
+            if lab.kind != "bool" or lab.value is None:
+                return False
+            e = expiry_cond(facts, pop, lab.cond)
+            if e is None:
+                return False
+            older, thr = e
+            found.append((older, thr, lab))
+            # the edge must be the one on which `at < threshold` is false
+            return (lab.value is False) if older else (lab.value is True)
+
+        ok2, w2 = pop.guarded(b, not_expired)
+        if not found:
+            ctx.undecided("IdleConnections::pop|yield-fresh", "no expiry comparison of a recognised shape guards the yield site", pop.where(b))
+        else:
+            ctx.check(ok2, "IdleConnections::pop|yield-fresh", "an idle entry is yielded only on the not-expired edge of `entry.at < threshold`",
+                      "an idle entry can be yielded on the expired edge / without the expiry test (comparator orientation checked)",
+                      pop.where(b), pop.path_desc(w2))
+            thr_ops.extend(t for (_, t, _) in found)
+    # threshold provenance: now - timeout, timeout from the parameter, zero disables
+    seen_sub = seen_now = seen_param = False
+    filt_ok = None
+    for thr in thr_ops[:1]:
+        rts = pop.roots(thr)
+        seen_param = any(r.kind == "arg" and r.desc.startswith("idle_timeout") for r in rts)
+        clos = [r.key for r in rts if r.kind == "closure"]
+        bodies = [pop] + [facts.fns[k] for k in clos if k in facts.fns]
+        for f in bodies:
+            for c in f.calls("std::time::Instant::checked_sub", "std::time::Instant::sub", "core::ops::Sub::sub", "std::ops::Sub::sub"):
+                r0 = f.roots(c.args[0])
+                r1 = f.roots(c.args[1])
+                if any(r.kind == "call" and r.site.is_("std::time::Instant::now") for r in r0) and                         any(r.kind == "arg" for r in r1):
+                    seen_sub = seen_now = True
+        for c in pop.calls(*_opt("filter")):
+            if not any(r.kind == "call" and r.site.bb == c.bb for r in rts):
+                continue
+            ck = closure_arg_of(pop, c, 1)
+            if ck in facts.fns:
+                cmpx = returned_comparison(facts.fns[ck])
+                if cmpx:
+                    op, a, b2 = cmpx
+                    z = const_of(b2)
+                    filt_ok = op in ("Gt", "Ne") and z is not None and z.strip("_f64u32i ").rstrip("f64").startswith("0")
+                else:
+                    filt_ok = False
+    ctx.check(seen_param, "IdleConnections::pop|threshold-from-timeout", "the expiry threshold derives from the idle_timeout parameter",
+              "expiry threshold does not derive from idle_timeout")
+    ctx.check(seen_sub and seen_now, "IdleConnections::pop|threshold-now-minus-timeout", "threshold = Instant::now() - timeout",
+              "threshold is not computed as Instant::now() - timeout")
+    if filt_ok is not None:
+        ctx.check(filt_ok, "IdleConnections::pop|zero-disables-only", "the timeout filter keeps exactly the non-zero timeouts (`> 0`)",
+                  "the timeout filter does not have the shape `timeout > 0`: a non-zero timeout may be ignored")
+    # callers / plumbing
+    ppop = facts.fn("client::pool::PoolInner::pop")
+    ctx.touched(ppop)
+    sites = facts.call_sites_of("client::pool::idle::IdleConnections::pop")
+    ctx.floor("IdleConnections::pop|callers", len(sites), 1, "call sites of IdleConnections::pop")
+    for c in sites:
+        ctx.check(c.fn.key == ppop.key, "IdleConnections::pop|caller|%s" % c.fn.nkey, "IdleConnections::pop is called from PoolInner::pop",
+                  "IdleConnections::pop called from %s" % c.fn.nkey, c.where())
+        if c.fn.key == ppop.key:
+            rr = ppop.roots(c.args[1])
+            ctx.check(any(r.kind == "arg" and r.desc.endswith("config.idle_timeout") for r in rr), "PoolInner::pop|timeout-arg",
+                      "the configured idle_timeout is what is passed to IdleConnections::pop",
+                      "timeout argument roots: %s" % sorted(map(repr, rr)), c.where())
+    rets = ppop.roots({"l": 0, "p": []}, through_calls=False)
+    bad = [r for r in rets if not ((r.kind == "call" and r.site.is_("client::pool::idle::IdleConnections::pop")) or
+                                   (r.kind == "agg" and r.desc.endswith("::None")))]
+    ctx.check(not bad and any(r.kind == "call" for r in rets), "PoolInner::pop|returns-filtered",
+              "PoolInner::pop returns only what IdleConnections::pop yielded (or None)",
+              "PoolInner::pop can return a value from %s" % sorted(map(repr, bad)))
+    # every read access to the idle entries goes through pop: no other function reads `Idle.inner`
+    for f in facts.fns.values():
+        if f.key == pop.key or f.d.get("derived"):
+            continue
+        for b in f.live:
+            for s in f.stmts(b):
+                if s["k"] != "assign":
+                    continue
+                r = s["r"]
+                pl = None
+                if r["k"] in ("use", "cast"):
+                    pl = op_place(r["o"])
+                elif r["k"] in ("ref", "copyderef"):
+                    pl = r["p"]
+                if pl is None:
+                    continue
+                base_ty = f.locals[pl["l"]]
+                if "client::pool::idle::Idle<" in base_ty and any(isinstance(e, dict) and e.get("n") == "inner" for e in pl["p"]) \
+                        and "IdleConnections" not in base_ty.split("Idle<")[0]:
+                    if f.nkey.startswith("<client::pool::idle::Idle as std::fmt::Debug>"):
+                        continue
+                    ctx.bad("%s|reads-idle-entry" % f.nkey, "idle entry's connection read outside IdleConnections::pop", f.where(b))
